@@ -11,11 +11,46 @@ CHECK_DEADLOCK FALSE
 """
 
 
+PP = """SPECIFICATION Spec
+CONSTANTS
+  PBug = "%s"
+  MaxTail = %d
+  DumpCases = %s
+INVARIANT GrammarMeansScanner
+CONSTRAINT Dump
+CHECK_DEADLOCK FALSE
+"""
+
+
+def bytelevel(c, thorough):
+    """M + G at byte level: the documented grammar (declarative) equals the scanner model on every short byte string, and every such
+    string is given to the real NewMiddleware."""
+    pcases = c.path("patparse.ndjson")
+    c.model_check("PatParseMC", PP % ("none", 6 if thorough else 5, "TRUE"), tag="PatParseMC", env={"OUT_FILE": pcases}, workers=8, timeout=3000)
+    for bug in ("noDefaultPort", "starPortJunk"):
+        c.negative_twin("PatParseMC", PP % (bug, 5, "FALSE"), tag="PatParseMC_neg_" + bug, workers=4)
+    psum = c.path("c13gen.json")
+    c.run_driver(["c13gen", "-cases", pcases, "-out", psum], timeout=3000)
+    ps = json.load(open(psum))
+    for v in (ps["violations"] or []):
+        c.violation("%s: %r" % (v["why"], v["pattern"]), v)
+    if ps["drift"]:
+        c.drift.append("PatParse.tla differs from the real ParsePattern on %d of %d byte strings, e.g. %s" % (ps["drift"], ps["cases"], json.dumps(ps["drifts"][:2])))
+    if ps["accepted"] == 0:
+        raise Infra("vacuous PatParse replay")
+    with c.lock:
+        c.cov["patparse_strings_replayed"] = ps["cases"]
+        c.cov["patparse_accepted"] = ps["accepted"]
+        c.cov["evaluations"] += ps["cases"]
+        c.cov["distinct_nontrivial"] += ps["judged"]
+
+
 def check(c):
     thorough = c.tier == "thorough"
     c.build_driver()
     cases = c.path("patterns.ndjson")
-    c.model_check("PatternMC", MC, tag="PatternMC", env={"OUT_FILE": cases}, workers=4)
+    c.parallel([lambda: bytelevel(c, thorough),
+                lambda: c.model_check("PatternMC", MC, tag="PatternMC", env={"OUT_FILE": cases}, workers=4)], max_workers=2)
     tot = {"valid": 0, "invalid": 0, "grey": 0, "selfmatched": 0, "cand": 0}
     for k in range(3 if thorough else 1):
         trace = c.path("c13_%d.ndjson" % k)
@@ -54,4 +89,6 @@ def check(c):
                      "domains of 1,11,63,64,250-253 bytes with 63-byte labels, +- trailing dot; Punycode; localhost; IPv4; short and full "
                      "IPv6; no port / 1 / 8080 / 65535 / non-default 80 or 443 / *; with and without leading *.) - i.e. including every "
                      "length maximum at once - and every single-defect mutation of each (38.5k candidates; every 2nd in the quick tier), "
-                     "built byte for byte from the components with seeded filler; judged by Pattern!Valid/Judged/MustSelfMatch in TLC")
+                     "built byte for byte from the components with seeded filler; judged by Pattern!Valid/Judged/MustSelfMatch in TLC. "
+                     "Byte level: every string of <= %d bytes over {a,1,0,-,.,*,:} after h:// / http:// / https:// (PatParseMC: the "
+                     "documented grammar, declaratively, equals the scanner model) given to the real NewMiddleware" % (6 if thorough else 5))
